@@ -218,3 +218,17 @@ package volume
 //@ use smaS_scale(mfvS(h, l, c, v), mfvS(h2, l2, c2, v2), a, P, k)
 //@ use smaS_scale(v, v2, a, P, k)
 //@ use ratio_scale(a, winS(mfvS(h, l, c, v), P)[k], winS(v, P)[k])
+//@ lemma emvPrevBoxS_pscale(h stream, l stream, v stream, h2 stream, l2 stream, v2 stream, lam real, j int)
+//@ requires[C18] lam > 0 && h2[j] == lam * h[j] && l2[j] == lam * l[j] && h2[j+1] == lam * h[j+1] && l2[j+1] == lam * l[j+1] && v2[j] == v[j] && h[j] != l[j] && v[j] != 0
+//@ ensures[C18] emvPrevBoxS(h2, l2, v2)[j] == lam * lam * emvPrevBoxS(h, l, v)[j]
+//@ use mul_lin(lam, h[j+1], l[j+1])
+//@ use mul_lin(lam, h[j], l[j])
+//@ use div_scale(lam, h[j+1] + l[j+1], 2)
+//@ use div_scale(lam, h[j] + l[j], 2)
+//@ use mul_lin(lam, (h[j+1] + l[j+1]) / 2, (h[j] + l[j]) / 2)
+//@ use div_div_pscale(lam, (h[j+1] + l[j+1]) / 2 - (h[j] + l[j]) / 2, v[j] / 100000000, h[j] - l[j])
+//@ lemma emvPrevBoxS_vscale(h stream, l stream, v stream, h2 stream, l2 stream, v2 stream, mu real, j int)
+//@ requires[C18] mu > 0 && h2[j] == h[j] && l2[j] == l[j] && h2[j+1] == h[j+1] && l2[j+1] == l[j+1] && v2[j] == mu * v[j] && h[j] != l[j] && v[j] != 0
+//@ ensures[C18] emvPrevBoxS(h2, l2, v2)[j] == (1 / mu) * emvPrevBoxS(h, l, v)[j]
+//@ use div_scale(mu, v[j], 100000000)
+//@ use div_div_vscale(mu, (h[j+1] + l[j+1]) / 2 - (h[j] + l[j]) / 2, v[j] / 100000000, h[j] - l[j])
